@@ -5,6 +5,7 @@ import (
 	"fmt"
 	"testing"
 	"testing/synctest"
+	"time"
 
 	sgbucket "github.com/couchbase/sg-bucket"
 	"github.com/couchbaselabs/rosmar"
@@ -24,8 +25,12 @@ var backlogSizes = []int{1100, 4200, 8300, 10100}
 func GenE4(prop string, seed uint64) *Program {
 	r := NewRng(seed ^ 0xE4E4)
 	prog := &Program{Engine: "e4", Prop: prop, Seed: seed}
-	prog.Backlog = backlogSizes[r.Intn(len(backlogSizes))]
 	prog.OnDisk = r.Chance(15)
+	if prop == "C14" {
+		prog.Overdue = 16 + r.Intn(12)
+		return prog
+	}
+	prog.Backlog = backlogSizes[r.Intn(len(backlogSizes))]
 	return prog
 }
 
@@ -47,19 +52,25 @@ func (e *e4) violate(tags []string, oracle, format string, args ...any) {
 func RunE4(t *testing.T, p *Program, withLog bool) *RunResult {
 	res := &RunResult{}
 	res.Stats.Cells = map[string]int{}
-	if p.Backlog == 0 {
+	if p.Backlog == 0 && p.Overdue == 0 {
 		return res
 	}
 	e := &e4{p: p, res: res}
 	var w *World
-	bo := RunBubble(t, func() { w = e.run() })
+	bo := RunBubble(t, func() {
+		if p.Overdue > 0 {
+			w = e.runOverdue()
+		} else {
+			w = e.run()
+		}
+	})
 	if w != nil {
 		w.Cleanup()
 	}
 	if bo.Panic != "" && res.Violation == nil && res.Trouble == "" {
 		res.Trouble = "backlog run panicked: " + bo.Panic
 	}
-	res.Stats.Ops = p.Backlog
+	res.Stats.Ops = p.Backlog + p.Overdue
 	res.Stats.NonTrivial = true
 	return res
 }
@@ -215,5 +226,46 @@ func (e *e4) run() *World {
 		e.res.Stats.Probes = map[string]int{}
 	}
 	e.res.Stats.Probes[fmt.Sprintf("backlog.checked:%d", n)]++
+	return w
+}
+
+// runOverdue: documents whose expiry time has already passed when they are written, one after the
+// other (each after the previous one has gone), alternating between two collections. Every one of
+// them must be gone within the few seconds the statement allows - the twentieth as promptly as the first.
+func (e *e4) runOverdue() *World {
+	rosmar.VerifResetProcess()
+	rosmar.VerifSetClock(nil)
+	rosmar.MaxDocSize = 20 * 1024 * 1024
+	w, err := OpenWorld("od", e.p.OnDisk, 1, 2)
+	if err != nil {
+		e.res.Trouble = "setup: " + err.Error()
+		return w
+	}
+	b := w.Handles[0]
+	defer func() {
+		_ = b.CloseAndDelete(context.Background())
+		synctest.Wait()
+	}()
+	const grace = 5 * time.Second
+	for i := 0; i < e.p.Overdue; i++ {
+		ds := w.Colls[0][i%2]
+		key := fmt.Sprintf("o%03d", i)
+		exp := uint32(time.Now().Unix() - 1)
+		if err := ds.SetRaw(key, exp, nil, []byte("x")); err != nil {
+			e.res.Trouble = fmt.Sprintf("write %d: %v", i, err)
+			return w
+		}
+		time.Sleep(grace)
+		synctest.Wait()
+		e.res.Stats.SimSeconds += grace.Seconds()
+		if _, _, err := ds.GetRaw(key); err == nil {
+			e.violate([]string{"C14"}, "expiry.overdue-burst", "document %d of a series written one after the other with an expiry time that had already passed (%q, expiry %d) is still readable %v after it was written; the earlier ones were removed in time", i+1, key, exp, grace)
+			return w
+		}
+	}
+	if e.res.Stats.Probes == nil {
+		e.res.Stats.Probes = map[string]int{}
+	}
+	e.res.Stats.Probes["overdue.checked"]++
 	return w
 }
